@@ -197,6 +197,8 @@ pub fn statement_for(q: &J, jpath: &str, tdef: &str) -> String {
         "badfile" => s += &format!(" INNER JOIN u::{} ON t.k = u.k", quote(&format!("{}.does-not-exist", jpath))),
         "dirfile" => s += &format!(" INNER JOIN u::{} ON t.k = u.k", quote(std::path::Path::new(jpath).parent().unwrap().to_str().unwrap())),
         "badcol" => s += &format!(" INNER JOIN u::{} ON t.k = u.nosuch", quote(jpath)),
+        "badqcol" => s += &format!(" INNER JOIN u::{} ON t.nosuch = u.k", quote(jpath)),
+        "badqcolouter" => s += &format!(" OUTER JOIN u::{} ON u.k = t.nosuch", quote(jpath)),
         "outer" => s += &format!(" OUTER JOIN u::{} ON {}", quote(jpath), if tdef == "numjoin" { "u.w = t.v" } else { "t.k = u.k" }),
         _ => {}
     }
